@@ -1,11 +1,79 @@
 import Ptn.C18.Model
+import Ptn.C18.Machine
 /-! Line-protocol handler for the C18 model (core Lean only).
 
   numsteps <num> <den>      → numSteps (num/den)
   sched <n> <k|inf>         → `<ncols>;<col>:<step>,<col>:<step>,…` (chronological writes)
   opidx <key> <k1> … <km>   → row of `key` in a dict with keys k1…km, or `none`
+  hist <dtnum> <dtden> <Tnum> <Tden> <recordbond 0|1> <nops> <event> …
+                            → the object machine of `Machine.lean` with IEEE double arithmetic (`fl`);
+                              events `run:<k|inf>`, `reset`, `setn:<m>`, `setc:<m>`, `step`; answer: one
+                              summary for the construction and one after every event, joined by `;`:
+                              `<ok|Exception>|n|dt|T|tag|steps|results|bond` where `steps` is the
+                              run-length encoded list of propagator tags used since construction / the last
+                              reset (oldest first, `num/den*count`), `results` is `none` or
+                              `<rows>x<cols>:<time>@<steps at evaluation>,…` (`z` = column still zero),
+                              `bond` is `none` or the recorded entries `[v,…]`
 -/
 namespace Ptn.C18
+
+def ratStr (q : Rat) : String := s!"{q.num}/{q.den}"
+
+/-- The state of the driver instance: run-length encoded tags of the propagators used, newest first. -/
+abbrev Rle := List (Rat × Nat)
+
+def rleStep (tag : Rat) : Rle → Rle
+  | (t, c) :: rest => if t = tag then (t, c + 1) :: rest else (tag, 1) :: (t, c) :: rest
+  | [] => [(tag, 1)]
+
+def rleCount (s : Rle) : Nat := s.foldl (fun a p => a + p.2) 0
+
+def histParams : Params Rle Nat Nat where
+  rnd := fl
+  stepWith := rleStep
+  obs := rleCount
+  bd := rleCount
+
+def parseEvent (tok : String) : Option Event :=
+  match tok.splitOn ":" with
+  | ["reset"] => some .reset
+  | ["step"] => some .step
+  | ["run", "inf"] => some (.run none)
+  | ["run", k] => k.toNat?.map fun k => .run (some k)
+  | ["setn", m] => m.toInt?.map .setN
+  | ["setc", m] => m.toInt?.map .setC
+  | _ => none
+
+def summary (exc : Option String) (s : Drv Rle Nat Nat) : String :=
+  let steps := ",".intercalate (s.cur.reverse.map fun p => s!"{ratStr p.1}*{p.2}")
+  let res := match s.results with
+    | none => "none"
+    | some r => s!"{r.nrows}x{r.ncols}:" ++ ",".intercalate (r.cols.map fun (c : Option (Column Nat)) =>
+        match c with
+        | some c => s!"{ratStr c.time}@{c.vals}"
+        | none => "z")
+  let bond := match s.bond with
+    | none => "none"
+    | some b => "[" ++ ",".intercalate (b.map toString) ++ "]"
+  s!"{exc.getD "ok"}|{s.n}|{ratStr s.dt}|{ratStr s.T}|{ratStr s.prop}|{steps}|{res}|{bond}"
+
+def histRun (s : Drv Rle Nat Nat) : List Event → List String → List String
+  | [], acc => acc.reverse
+  | e :: es, acc =>
+    let r := apply histParams e s
+    histRun r.1 es (summary r.2 r.1 :: acc)
+
+def handleHist (args : List String) : String :=
+  match args with
+  | a :: b :: c :: d :: rb :: nops :: evs =>
+    match a.toInt?, b.toNat?, c.toInt?, d.toNat?, nops.toNat?, evs.mapM parseEvent with
+    | some dn, some dd, some tn, some td, some nops, some es =>
+      if dd = 0 ∨ td = 0 ∨ (rb ≠ "0" ∧ rb ≠ "1") then "bad-op" else
+        match construct histParams [] (mkRat dn dd) (mkRat tn td) (.list nops) (rb == "1") with
+        | none => "ValueError"
+        | some s => ";".intercalate (histRun s es [summary none s])
+    | _, _, _, _, _, _ => "bad-op"
+  | _ => "bad-op"
 
 def handle (args : List String) : String :=
   match args with
@@ -32,6 +100,7 @@ def handle (args : List String) : String :=
     match operatorIndex (.dict ks) key with
     | some i => toString i
     | none => "none"
+  | "hist" :: rest => handleHist rest
   | _ => "bad-op"
 
 end Ptn.C18
